@@ -414,6 +414,15 @@ PoolC04ops ==
               PE(Bin("or", pe.e, Call("false", <<>>)), IF pe.m = "none" THEN "none" ELSE "set") }
             : pe \in {x \in PoolC04 : IsNSMode(x)} }
 
+\* ... and evaluated as ARGUMENTS of a function call, wrapped in an operator (the engine clones function
+\* arguments per call: state of an operator tree inside an argument must not survive the call)
+PoolC04fn ==
+    UNION { { PE(Call("boolean", <<Bin("=", pe.e, Lit("1"))>>), pe.m), PE(Call("not", <<Bin("=", pe.e, Lit("1"))>>), pe.m),
+              PE(Call("string", <<Bin("!=", pe.e, Lit(""))>>), pe.m), PE(Call("not", <<Bin("or", pe.e, Call("false", <<>>))>>), IF pe.m = "none" THEN "none" ELSE "set"),
+              PE(Call("concat", <<Call("string", <<Bin("=", pe.e, Lit("2"))>>), Lit("-"), Call("string", <<Bin(">", pe.e, N(0))>>)>>), pe.m),
+              PE(Call("boolean", <<Bin(">", Bin("+", Call("count", <<pe.e>>), N(0)), N(1))>>), IF pe.m \in {"seq", "once"} THEN "set" ELSE "none") }
+            : pe \in {x \in PoolC04 : IsNSMode(x)} }
+
 \* C12: flat paths (document order, no duplicates) exhaustively, plus
 \* non-flat node-set expressions for the protocol relations
 FlatAxes == {"child", "attribute", "self"}
